@@ -1162,10 +1162,18 @@ def _output_pool(eao, rng, T, pts):
             pool.append(eao.assets.ScaledAsset(name='x%d' % len(pool), base_asset=base, max_scale=4., norm_scale=2., fix_costs=.3, start=pts[a], end=pts[b]))
         elif kind == 'plant':
             pool.append(eao.assets.Plant(name='g%d' % len(pool), nodes=B, min_cap=1., max_cap=3., extra_costs=4., start_costs=1., min_runtime=2, start=pts[a], end=pts[b]))
+        elif kind == 'coarse':
+            # an asset on a coarser frequency than the portfolio (one variable, one mapping row per fine step)
+            # (window aligned with the coarse steps: unaligned edges are the known findings D25 / D25b)
+            a2, b2 = a - a % 2, b - b % 2
+            if b2 <= a2:
+                b2 = a2 + 2
+            if b2 <= T:
+                pool.append(eao.assets.SimpleContract(name='f%d' % len(pool), nodes=rng.choice([A, B]), price='p', min_cap=-1., max_cap=2., freq='2h', start=pts[a2], end=pts[b2]))
         elif kind == 'multi':
             pool.append(eao.assets.MultiCommodityContract(name='u%d' % len(pool), nodes=[A, B], factors_commodities=[1., -.5], min_cap=0., max_cap=2.,
                                                           extra_costs=.2, start=pts[a], end=pts[b]))
-    kinds = ['contract', 'spread', 'transport', 'storage', 'storage2', 'storage_mip', 'orderbook', 'scaled', 'plant', 'multi']
+    kinds = ['contract', 'spread', 'transport', 'storage', 'storage2', 'storage_mip', 'orderbook', 'scaled', 'plant', 'multi', 'coarse', 'coarse']
     for kind in rng.sample(kinds, rng.randint(2, 5)):
         add(kind)
     rng.shuffle(pool)
@@ -1229,6 +1237,11 @@ def check_extract_output(case):
         tot += own.sum()
         if a.name not in dcf.columns or not np.allclose(dcf[a.name].values.astype(float), own, atol=1e-9):
             F('C04.output.dcf_table_is_the_assets_dcf', f'asset {a.name}')
+        # each asset's cash-flow total = minus the cost of its OWN variables times their values (every variable once)
+        mine = sorted(set(int(i) for i in m.index[m['asset'] == a.name]))
+        want_own = -float(sum(op.c[j] * x[j] for j in mine))
+        if abs(float(own.sum()) - want_own) > 1e-6 * max(1., abs(want_own)):
+            F('C04.perasset.dcf_equals_cost_of_own_variables', f'asset {a.name} ({type(a).__name__}): DCF total {own.sum()} vs -c.x of its own variables {want_own}')
     if abs(float(o['summary'].loc['value', 'Values']) - res.value) > 1e-9:
         F('C04.output.summary_value_is_result_value', f"summary {o['summary'].loc['value', 'Values']} result {res.value}")
     if abs(tot - res.value) > 1e-6 * max(1., abs(res.value)):
